@@ -8,7 +8,8 @@
 //	(2) layout: whitespace/comment variants, redundant parentheses and trailing commas must give
 //	    the same whole-program tree (span-insensitive reflective dump);
 //	(3) value: int/bool expressions over literals are also analysed, compiled and run on the VM
-//	    and the printed value is compared with the harness' evaluation of the intended tree.
+//	    and the printed value is compared with the harness' evaluation of the intended tree;
+//	(4) brace-terminated operands (withblock.go) and numeral spellings (spell.go): see there.
 //
 // The intended trees come from the operator table in the property text (exprgen/node.go), never
 // from lexer.TokenKind.Prec.
@@ -51,6 +52,8 @@ func (c07) Info(tier string) fw.Info {
 			"prefix x binary x postfix combinations on both sides (36 x 36 operand forms per operator), random trees of depth <= 7 printed with the minimum parentheses the table requires, " +
 			"typed int/bool trees over literals whose value is also computed on the VM, directed value pairs (literals chosen so that the two groupings evaluate differently), " +
 			"compound assignments by value, every list-like construct with/without trailing comma, the shipped corpus and hand-written statement forms re-laid-out (ranges and statements: layout invariance only). " +
+			"Brace-terminated operands — block / if / match / try expressions, function and object literals — stand UNPARENTHESISED under every binary-like operator (left, right, middle, both sides), every prefix / postfix form and as range sides (13 forms x 32 operators, plus random trees with such leaves; intended tree = table tree over a placeholder whose node is the one the parser builds for the operand standing alone), each additionally rendered with a line break / line comment in every single gap; the same operands with known values are evaluated on the VM. " +
+			"Numerals: the decimal value is part of the tree, so every spelling the grammar gives the same value (leading zeros, digit separators where the lexer is observed to accept them, trailing fraction zeros) must give the canonical spelling's tree — random trees, a directed (value x spelling) list, all statement forms and corpus files re-spelled, and values on the VM. " +
 			"Each expression is rendered as base text + k variants (tight, random whitespace/newlines/comments, one token per line, redundant parentheses around operands, trailing commas) in a seed-chosen statement context. " +
 			"non-trivial = an intended tree with >= 2 table constructs was reproduced by the parser AND at least one variant that differs textually from the base was compared (value cases: >= 1 value of a tree with >= 2 constructs compared; layout cases: base accepted and >= 1 differing variant compared); distinct = distinct (workload, parameters, seed)",
 		Assumptions: []string{
@@ -61,6 +64,8 @@ func (c07) Info(tier string) fw.Info {
 			"whitespace = space, LF, CRLF (tab only when the lexer is observed to accept it and KF-lexer-tab is not open); `..=`, `$name`, `@name` are treated as single tokens",
 			"while " + kfLexerOrAnd + " is open, or the real lexer is observed (at case-generation time) to mis-lex `a||b&c|=d`, the default renderings keep a whitespace character after | || |= & && &=; tight renderings then live only in the separately tagged workload '" + tagTight + "'",
 			"redundant parentheses around an assignment target (`(a) = 1`, finding " + kfParenTarget + ") are generated only by the tagged workload '" + tagParenTarget + "' so that this one defect cannot flood the others; the pair/triple enumerations are complete, everything else is seed-sampled (Exhaustive refers to the enumerations)",
+			"a with-block expression (block, if, match, try) that starts a statement or a block's result and is followed by an operator has a second grammatical reading (ExpressionStatement = ExpressionWithBlock [';'], then another statement): in the contexts stmt/tail/fnlit/blocktail only layout invariance is demanded for such expressions, everywhere else the operand is one node of the table tree",
+			"numerals are decimal whatever their first digit is (grammar.ebnf: number = DIGIT { DIGIT | '_' } ...): `010` is ten; digit separators are only used when the real lexer is observed (at case-generation time) to lex `1_000`, `0_10`, `1_2_3` as one number",
 			"value check: literals only, results inside the region where the property fixes the arithmetic (no division by zero, shift counts 0..63, ** with exponent >= 0 and |result| < 2^53)",
 		},
 		Exhaustive:   true,
@@ -87,6 +92,8 @@ type payload struct {
 	Srcs     []string      `json:"srcs,omitempty"`
 	Want     *exprgen.Node `json:"want,omitempty"`
 	Ctx      string        `json:"ctx,omitempty"`
+	Seps     bool          `json:"seps,omitempty"` // digit separators are observed to lex as part of a number
+	V        int64         `json:"v,omitempty"`
 }
 
 // lexerAcceptsTab observes the real lexer on a tab (pure function of the code under test).
@@ -222,6 +229,53 @@ func (c07) Cases(tier string, seed uint64) []fw.Case {
 	for i := 0; i < np; i++ {
 		add("parenlhs", payload{Seed: r.Next(), N: 8, Depth: 2 + i%4, K: 3, ForceLHS: true}, tagParenTarget)
 	}
+	// (10) brace-terminated operands (block / if / match / try, function and object literals)
+	// unparenthesised under every operator of the table, with a line break in every single gap
+	kb, nbr, nvb := 4, 60, 60
+	if thorough {
+		kb, nbr, nvb = 12, 1500, 800
+	}
+	for fi := range braceForms {
+		for _, op := range ops {
+			add("wblock", payload{Name: "op", N: fi, Op1: op, Seed: r.Next(), K: kb, KeepLHS: keepLHS})
+		}
+		add("wblock", payload{Name: "post", N: fi, Seed: r.Next(), K: kb, KeepLHS: keepLHS})
+	}
+	for i := 0; i < nbr; i++ {
+		add("wblock", payload{Name: "random", Seed: r.Next(), N: 10, Depth: 2 + i%5, K: kb, KeepLHS: keepLHS})
+	}
+	for i := 0; i < nvb; i++ {
+		add("vblock", payload{Seed: r.Next(), N: 6, Depth: 2 + i%4})
+	}
+	// (11) literal spellings: the numeral's decimal value is part of the tree
+	seps := lexerDigitSeparatorsOK()
+	nsp, nvs := 100, 80
+	if thorough {
+		nsp, nvs = 3000, 2000
+	}
+	for i := 0; i < nsp; i++ {
+		add("spell", payload{Seed: r.Next(), N: 12, Depth: 2 + i%5, K: 4, KeepLHS: keepLHS})
+	}
+	for _, v := range spellPool {
+		add("litdirect", payload{V: v, Seps: seps, Seed: r.Next()})
+	}
+	// small programs: one rejected numeral must not hide the values of the others
+	for i := 0; i < len(spellPool); i += 3 {
+		add("vspell", payload{Name: "directed", N: i, Seed: r.Next()})
+	}
+	for i := 0; i < nvs; i++ {
+		add("vspell", payload{Seed: r.Next(), N: 4, Depth: 2 + i%4})
+	}
+	for _, sn := range spellSnippets {
+		add("stmt", payload{Name: "snippet/" + sn.name, Src: sn.src, Seed: r.Next(), K: ks})
+		add("stmtspell", payload{Name: "snippet/" + sn.name, Src: sn.src, Seed: r.Next(), K: 8})
+	}
+	for _, sn := range snippets {
+		add("stmtspell", payload{Name: "snippet/" + sn.name, Src: sn.src, Seed: r.Next(), K: 4})
+	}
+	for _, name := range drive.SortedKeys(corpus) {
+		add("stmtspell", payload{Name: name, Src: corpus[name], Seed: r.Next(), K: 4})
+	}
 	return cases
 }
 
@@ -230,9 +284,10 @@ func (c07) Cases(tier string, seed uint64) []fw.Case {
 // ---------------------------------------------------------------------------------------------
 
 type work struct {
-	p payload
-	r *fw.Rng
-	a *acc
+	p     payload
+	r     *fw.Rng
+	a     *acc
+	alone map[string]*exprgen.Node // operands parsed standing alone (withblock.go)
 }
 
 var styleNames = []string{"canonical", "tight", "mixed", "comments", "lines"}
@@ -262,10 +317,22 @@ func join(parts ...[]string) []string {
 
 // variants renders an intended tree as base text + k variants inside a context.
 func (w *work) variants(want *exprgen.Node, ctx *context, k int) []variant {
-	base := exprgen.Tokens(want, nil)
+	return w.variantsOf(func(po *exprgen.PrintOpts) []string { return exprgen.Tokens(want, po) }, nil, ctx, k)
+}
+
+// variantsOf is the variant engine behind variants: print renders the expression's tokens (nil
+// options = canonical), post (optional) rewrites the expression tokens of every non-base variant
+// in a meaning-preserving way (e.g. other spellings of the same literal) and reports what it did.
+func (w *work) variantsOf(print func(po *exprgen.PrintOpts) []string, post func(toks []string) ([]string, string), ctx *context, k int) []variant {
+	base := print(nil)
 	full := join(ctx.pre, base, ctx.post)
 	vs := []variant{{src: exprgen.Layout(full, &exprgen.LayoutOpts{Style: exprgen.StyleCanonical}), kind: "base"}}
 	for j := 1; j <= k; j++ {
+		full, suffix := full, ""
+		if post != nil {
+			alt, what := post(append([]string{}, base...))
+			full, suffix = join(ctx.pre, alt, ctx.post), what
+		}
 		mode := j
 		if j > 4 {
 			mode = 1 + w.r.Intn(4)
@@ -275,18 +342,21 @@ func (w *work) variants(want *exprgen.Node, ctx *context, k int) []variant {
 		}
 		switch mode {
 		case 1:
-			vs = append(vs, variant{src: w.layout(full, exprgen.StyleTight), kind: "layout-tight"})
+			vs = append(vs, variant{src: w.layout(full, exprgen.StyleTight), kind: "layout-tight" + suffix})
 		case 3:
-			vs = append(vs, variant{src: w.layout(full, exprgen.StyleComments), kind: "layout-comments"})
+			vs = append(vs, variant{src: w.layout(full, exprgen.StyleComments), kind: "layout-comments" + suffix})
 		case 4:
 			st := exprgen.StyleMixed
 			if w.r.Intn(3) == 0 {
 				st = exprgen.StyleLines
 			}
-			vs = append(vs, variant{src: w.layout(full, st), kind: "layout-" + styleNames[st]})
+			vs = append(vs, variant{src: w.layout(full, st), kind: "layout-" + styleNames[st] + suffix})
 		default:
 			po := &exprgen.PrintOpts{R: w.r, AtomParens: 25, NodeParens: 20, TrailComma: 50, KeepAssignLHS: w.p.KeepLHS, ForceAssignLHS: w.p.ForceLHS, AltQuotes: true}
-			toks := exprgen.Tokens(want, po)
+			toks := print(po)
+			if post != nil {
+				toks, suffix = post(toks)
+			}
 			kind := "tokens"
 			switch {
 			case po.LHSParens > 0:
@@ -306,7 +376,7 @@ func (w *work) variants(want *exprgen.Node, ctx *context, k int) []variant {
 				st = exprgen.StyleMixed
 				kind += "+layout"
 			}
-			vs = append(vs, variant{src: w.layout(join(ctx.pre, toks, ctx.post), st), kind: kind})
+			vs = append(vs, variant{src: w.layout(join(ctx.pre, toks, ctx.post), st), kind: kind + suffix})
 		}
 	}
 	return vs
@@ -507,6 +577,33 @@ func (c07) Run(c fw.Case) (res fw.Result) {
 		w.runValues("vpairs", w.valuePairs(p.Op1))
 	case "vassign":
 		w.runValues("vassign", w.valueAssigns(p.Op1))
+	case "wblock":
+		switch p.Name {
+		case "op":
+			w.wblockOp(braceForms[p.N%len(braceForms)], p.Op1, p.K)
+		case "post":
+			w.wblockPost(braceForms[p.N%len(braceForms)], p.K)
+		default:
+			w.wblockRandom(p.N, p.Depth, p.K)
+		}
+	case "vblock":
+		var items []vitem
+		for i := 0; i < p.N; i++ {
+			it, ok := w.braceValueItem(p.Depth)
+			if !ok {
+				break
+			}
+			items = append(items, it)
+		}
+		w.runValues("vblock", items)
+	case "spell":
+		w.spellRandom(p.N, p.Depth, p.K)
+	case "litdirect":
+		w.litDirect(p.V, p.Seps)
+	case "vspell":
+		w.runValues("vspell", w.vspellItems(p.N, p.Depth, p.Name == "directed"))
+	case "stmtspell":
+		w.stmtSpell()
 	case "lists":
 		w.lists()
 	case "stmt":
@@ -589,7 +686,7 @@ func (c07) Finalize(tier string, results []fw.Result, coverage map[string]any) s
 	coverage["nontrivial_by_workload"] = nontriv
 	coverage["cases_by_workload"] = total
 	var missing []string
-	for _, g := range []string{"pairs", "triples", "prepost", "random", "value", "vpairs", "vassign", "lists", "stmt"} {
+	for _, g := range []string{"pairs", "triples", "prepost", "random", "value", "vpairs", "vassign", "lists", "stmt", "wblock", "vblock", "spell", "litdirect", "vspell", "stmtspell"} {
 		if total[g] > 0 && nontriv[g] == 0 {
 			missing = append(missing, g)
 		}
